@@ -3,6 +3,7 @@ from __future__ import annotations
 
 import os
 import signal
+import shutil
 import subprocess
 import sys
 import tempfile
@@ -399,11 +400,13 @@ def unit_atheris(a):
 
 # ------------------------------------------------------------------ other interpreter modes
 MODE_SCRIPT = r"""
-import sys
+import os, sys
 sys.path.insert(0, sys.argv[1]); sys.path.insert(0, sys.argv[2])
 from vlib import noisy
 from checks import c01
 from checks.c15 import POOL
+if os.environ.get("VERIF_DELETE_CWD"):
+    os.rmdir(os.getcwd())   # the process lives on in a directory that no longer exists (cleaned workspace, daemon)
 n = 0
 EXTRA = ["Feature: f\n Scenario Outline: o <n>\n  Given <n>\n  Examples:\n   | n | n |\n   | 1 | 2 |\n", "@a @a\nFeature: f\n @a\n Scenario: s\n  Given x\n  Given x\n",
          "Feature: f\n Scenario: same\n Scenario: same\n", "Feature: f\n Background:\n Scenario: s\n", "Feature: f\n Scenario Outline: o\n  Given <missing>\n  Examples:\n   | a |\n   | 1 |\n",
@@ -430,7 +433,13 @@ def check_mode(case, stats):
         raise Violation(case, "the pipeline lets a foreign exception escape on a document of the corpus: " + plain.stderr[-600:])
     if plain.returncode != 0:
         raise HarnessError("mode script fails in a plain interpreter: " + plain.stderr[-600:])
-    r = subprocess.run([sys.executable] + case.get("flags", []) + ["-c", MODE_SCRIPT, os.path.join(REPO, "python"), VERIF], capture_output=True, text=True, timeout=600, cwd=os.getcwd(), env=env)
+    cwd = os.getcwd()
+    if case.get("delete_cwd"):
+        cwd = tempfile.mkdtemp(prefix="c01-gone-")
+        env["VERIF_DELETE_CWD"] = "1"
+    r = subprocess.run([sys.executable] + case.get("flags", []) + ["-c", MODE_SCRIPT, os.path.join(REPO, "python"), VERIF], capture_output=True, text=True, timeout=600, cwd=cwd, env=env)
+    if case.get("delete_cwd") and os.path.isdir(cwd):
+        shutil.rmtree(cwd, True)
     if r.returncode != 0 or r.stdout.strip() != plain.stdout.strip():
         raise Violation(case, "the pipeline is total in a plain interpreter but not in one started with %r %r: %s" % (case.get("flags"), case.get("env"), (r.stderr or r.stdout)[-600:]))
 
@@ -441,7 +450,8 @@ def unit_modes(a):
                   # library code must not rely on warnings being only printed (test runners and CI turn them into errors)
                   {"sub": "mode", "name": "warnings-as-errors", "flags": ["-W", "error::UserWarning", "-W", "error::DeprecationWarning:gherkin", "-W", "error::RuntimeWarning", "-W", "error::FutureWarning",
                                                                          "-W", "error::SyntaxWarning"]},
-                  {"sub": "mode", "name": "c-locale", "env": {"LC_ALL": "C", "LANG": "C", "PYTHONUTF8": "0", "PYTHONCOERCECLOCALE": "0", "PYTHONIOENCODING": "utf-8"}}], check_mode, stop_after=4)
+                  {"sub": "mode", "name": "working-directory-deleted", "flags": ["-X", "utf8"], "delete_cwd": True},
+                  {"sub": "mode", "name": "c-locale", "env": {"LC_ALL": "C", "LANG": "C", "PYTHONUTF8": "0", "PYTHONCOERCECLOCALE": "0", "PYTHONIOENCODING": "utf-8"}}], check_mode, stop_after=5)
     return stats
 
 
